@@ -369,3 +369,34 @@ func ZZC06Amb(n int) {
 	zzv.Assert(hasA != hasB, "concurrent-ambiguous-registrations:not-exactly-one-accepted")
 	zzv.Assert(p1 != p2 && p1 == hasB, "concurrent-ambiguous-registrations:the-rejected-call-did-not-panic-or-the-accepted-one-did")
 }
+
+// ZZC06Panic(n): user code that runs while the tree's read lock is held (an interceptor) panics;
+// a recovery option turns that into an error response. The lock must not stay taken: a registration
+// and a request that follow complete. n = 1: the panic happens during strict URL building instead.
+func ZZC06Panic(n int) {
+	boom := func(s string) bool {
+		if s == "boom" {
+			panic("interceptor failed")
+		}
+		return true
+	}
+	r := NewRouter[*hnd]("r", zzCall, &hnd{id: id404}, zzB405, zzBOpt, WithLock(true), WithStatusRecovery(500), WithInterceptor(boom, "pb"))
+	r.Handle("/i/{v:pb}", &hnd{id: 1}, nil, "GET")
+	var o2 *zzObs
+	first := true
+	// (run as a logical thread so that the lock model is active: a leaked lock shows as a deadlock)
+	zzv.Par(func() {
+		if n == 1 {
+			p, _ := zzGuard(func() { r.URL(true, "/i/{v:pb}", map[string]string{"v": "boom"}) })
+			first = p
+		} else {
+			o := zzServePriv(r, "GET", "/i/boom")
+			first = o.calls == 0
+		}
+		r.Handle("/later", &hnd{id: 2}, nil, "GET") // blocks forever if the read lock leaked
+		o2 = zzServePriv(r, "GET", "/later")
+	})
+	zzv.Cover("panic-under-the-lock")
+	zzv.Assert(first, "lock-leak:the-interceptor-did-not-panic-or-its-panic-was-not-contained")
+	zzv.Assert(o2.id == 2, "lock-leak:registration-after-a-recovered-panic-not-served")
+}
